@@ -23,7 +23,7 @@ def rule_index_guards(prog, res, fnames, extra_bounds=None, rule="R-INDEX"):
                 return
             base = ir.strip(node["b"])
             length = None
-            if isinstance(base, dict) and base.get("k") == "var":
+            if isinstance(base, dict) and base.get("k") in ("var", "mem"):
                 m = re.search(r"\[(\d+)\]", base.get("t", ""))
                 if m:
                     length = int(m.group(1))
